@@ -55,7 +55,8 @@ static Verdict judge(const Case &c) {
 	XRun r = run_echsx(g_echsx, g_shim, wd, req, {}, 30.0);
 	if (g_trace) fprintf(stderr, "workdir %s\nstatus %d wall %.3f hung %d\n--- journal\n%s--- log\n%s--- mail (%d)\n%.400s\n", wd.c_str(), r.status, r.wall, r.hung, r.journal.c_str(), r.log.c_str(), r.mail_sent, r.mail.c_str());
 	if (!r.started) return done(Verdict::inconclusive("cannot start echsx"));
-	if (r.hung) return done(Verdict::fail("echsx did not finish within 30 s"));
+	// a busy machine is no verdict: before calling it a hang the run is repeated with ten times the budget (the job's own files are cumulative, so they are reset first)
+	if (r.hung) { unlink((jd + "/runs.txt").c_str()); r = run_echsx(g_echsx, g_shim, wd, req, {}, 300.0); if (r.hung) return done(Verdict::fail("echsx did not finish within 300 s (30 s at first)")); }
 	if (WIFSIGNALED(r.status)) return done(Verdict::fail("echsx itself was killed by signal " + std::to_string(WTERMSIG(r.status))));
 	std::string tag = "[row " + std::to_string(c.row) + "] ";
 	// ---- run exactly once, as specified
